@@ -496,6 +496,18 @@ Definition pcm_seek (s : vfs) (pos : Z) : Z * vfs :=
         (0, seek_skip (pkt_count (v_rem s3) + length (v_q s3) + 3) s3 pos)
   end.
 
+(* ov_halfrate(vf, flag): refused (state untouched) when switching on and some
+   link has 64-sample short blocks; otherwise the flag is set on every link,
+   then a running decoder is dumped and the position re-sought *)
+Definition halfrate (s : vfs) (flag : bool) : Z * vfs :=
+  if flag && existsb (fun l => li_bs0 l <=? 64) (v_links s) then (OV_EINVAL_, s)
+  else
+    let s1 := set_hs s (if flag then 1 else 0) in
+    if v_rs s1 >? STREAMSET then
+      let s2 := set_rs s1 STREAMSET in
+      if v_pcm s2 >=? 0 then (0, snd (pcm_seek (set_pcm s2 (-1)) (v_pcm s2))) else (0, s2)
+    else (0, s1).
+
 (* ---- open ---------------------------------------------------------------------- *)
 
 (* state right after a successful seekable open: ov_raw_seek(dataoffsets[0]) *)
